@@ -128,7 +128,7 @@ static struct shim_map *shim_by_name(const char *name, size_t n)
 
 // ---- event log (mutations performed by the program during one command)
 struct event {
-	__u8 kind; // 1 update, 2 delete, 3 ringbuf
+	__u8 kind; // 1 update, 2 delete, 3 ringbuf, 4 lookup (SOCKMAP/SOCKHASH only)
 	__u8 map_id;
 	__u32 klen, vlen;
 	__u8 *key, *val;
@@ -257,6 +257,9 @@ void *bpf_map_lookup_elem(void *map, const void *key)
 	}
 	case BPF_MAP_TYPE_SOCKMAP:
 	case BPF_MAP_TYPE_SOCKHASH:
+		// no socket is ever found; the key the program asked for is logged (event kind 4 = lookup)
+		// so that a monitor can compare it with the slot the control plane filled
+		ev_add(4, m->id, key, m->key_size, NULL, 0);
 		return NULL;
 	default:
 		die("lookup on unsupported map type");
